@@ -52,7 +52,7 @@ def small_rotation(axis, angle_deg):
 
 
 def rebuild(s3, *, point_fn=None, residue_fn=None, keep=None, atom_keep=None, atom_order=None,
-            chain_map=None, number_fn=None, round_to=None, model=None, ident_fn=None):
+            chain_map=None, number_fn=None, round_to=None, model=None, ident_fn=None, occupancy_fn=None):
     """new Structure3D from `s3`.
 
     point_fn(xyz ndarray, residue_index, atom_index) -> xyz   (rigid motion, jitter)
@@ -117,7 +117,8 @@ def rebuild(s3, *, point_fn=None, residue_fn=None, keep=None, atom_keep=None, at
                 xyz = point_fn(xyz, ri, k)
             if round_to is not None:
                 xyz = np.round(xyz, round_to)
-            atoms.append(Atom(a.entity_id, label, auth, a.model if model is None else model, a.name, float(xyz[0]), float(xyz[1]), float(xyz[2]), a.occupancy))
+            occ = a.occupancy if occupancy_fn is None else occupancy_fn(ri, a.name, a.occupancy)
+            atoms.append(Atom(a.entity_id, label, auth, a.model if model is None else model, a.name, float(xyz[0]), float(xyz[1]), float(xyz[2]), occ))
         if not atoms:
             continue
         residues.append(Residue3D(label, auth, r.model if model is None else model, r.one_letter_name, tuple(atoms)))
@@ -197,6 +198,11 @@ def st_mini(files, max_extra=4, split=False):
                 strip.append([slot, how])
         case = {"kind": "mini", "file": fn, "residues": idx, "moves": moves, "drop": drops, "relabel": relabel, "strip": strip}
         if draw(st.integers(0, 3)) == 0:
+            # occupancies other than 1.00 (0.00 marks "modelled but not observed", 0.5 a half-occupied conformer, None
+            # a file without the column): the geometry of the annotation does not ask for them
+            case["occupancy"] = [[draw(st.integers(0, len(idx) - 1)), draw(st.sampled_from(["base", "all", "ring-half", "backbone"])),
+                                  draw(st.sampled_from([0.0, 0.0, 0.5, None]))] for _ in range(draw(st.integers(1, 2)))]
+        if draw(st.integers(0, 3)) == 0:
             case["reletter"] = {"slots": draw(st.lists(st.integers(0, len(idx) - 1), min_size=1, max_size=len(idx), unique=True)), "c7": draw(st.booleans())}
         if split:
             cuts = []
@@ -248,7 +254,22 @@ def build_mini(case):
             return name not in PHOSPHATE and name not in ("C5'", "O5'", "O3'", "O2'")
         return True
 
-    out = rebuild(s3, keep=set(idx), point_fn=pf, atom_keep=ak if (dropped or stripped) else None, ident_fn=mini_ident_fn(case.get("relabel"), idx))
+    occ_plan = {}
+    for slot, which, value in case.get("occupancy", []):
+        occ_plan[idx[slot % len(idx)]] = (which, value)
+
+    def of(ri, name, occ):
+        if ri not in occ_plan:
+            return occ
+        which, value = occ_plan[ri]
+        backbone = name in PHOSPHATE or name in SUGAR
+        if which == "all" or (which == "base" and not backbone) or (which == "backbone" and backbone) or \
+                (which == "ring-half" and name in ("N1", "C2", "N3", "C4")):
+            return value
+        return occ
+
+    out = rebuild(s3, keep=set(idx), point_fn=pf, atom_keep=ak if (dropped or stripped) else None, ident_fn=mini_ident_fn(case.get("relabel"), idx),
+                  occupancy_fn=of if occ_plan else None)
     if case.get("reletter"):
         out = reletter_u_to_t(out, case["reletter"]["slots"], case["reletter"]["c7"])
     if case.get("split"):
